@@ -2,14 +2,20 @@
 
 // C29: request deduplication runs at most one execution per key.
 //
-// E1  (vrt, overlay sync -> vsync in utils/dedup): every interleaving, up to a
+//   - E1 (vrt, overlay sync -> psync in utils/dedup): every interleaving, up to a
 //     preemption bound, of callers of the real dedup.Limiter / dedup.IntervalTrap
 //     and a thread that advances an explicit clock past the task TTL / the GC
 //     interval (so limiterTaskGC races with a caller that holds a task).
-// E1q (testing/synctest bubble, go1.26.8): every order of the pending actions
+//   - E1q (testing/synctest bubble, go1.26.8): every order of the pending actions
 //     {client issues its next Start, a parked request completes, the clock
 //     advances} of the real dedup.RequestCache (goroutine per request, worker
 //     semaphore channel, clk.After), directly and through blobrefresh.Refresher.
+//   - E1 on the RequestCache at lock granularity (its `go` statement becomes a
+//     vrt thread through the overlay, its mutex psync): every interleaving, up
+//     to a preemption bound, of 2-3 clients' Starts, the cache's request
+//     goroutines (request / release / ErrorMatcher / store-error steps) and a
+//     clock thread, for every pair of client programs of 1-2 Starts with
+//     outcome ok / err / not-found.
 package main
 
 import (
@@ -18,9 +24,11 @@ import (
 	"fmt"
 	"io"
 	"os"
+	"os/exec"
 	"sort"
 	"strings"
 	"sync"
+	"syscall"
 	"testing"
 	"time"
 
@@ -655,7 +663,9 @@ func (f *fakeBackend) Stat(namespace, name string) (*core.BlobInfo, error) {
 	}
 	return core.NewBlobInfo(int64(len(b))), nil
 }
-func (f *fakeBackend) Upload(namespace, name string, src io.Reader) error { return errors.New("unused") }
+func (f *fakeBackend) Upload(namespace, name string, src io.Reader) error {
+	return errors.New("unused")
+}
 func (f *fakeBackend) Download(namespace, name string, dst io.Writer) error {
 	key := f.keyOf[name]
 	call := f.m.owner(key)
@@ -794,6 +804,518 @@ func rcHarness(sc rscen) *vrt.Harness {
 	})
 }
 
+// ============================================================== E1: RequestCache at lock granularity
+//
+// The E1q part above treats every critical section of the cache (and whatever
+// follows it up to the next blocking operation) as one atomic step. This part
+// runs the same real RequestCache under the cooperative scheduler instead: the
+// overlay turns its `go` statement into a vrt thread and its mutex into psync,
+// so every Lock, every point after an Unlock, the user-supplied ErrorMatcher
+// and the request body are scheduling points, and a Start of another client can
+// land between any two critical sections of a finishing (or failing) request.
+// The worker semaphore is kept out of the way (more workers than Starts; the
+// busy path is E1q's subject).
+
+// rcClock is explicit time for the cache. After never fires: with a free worker
+// the select in reserveWorker always takes the (ready) semaphore send.
+type rcClock struct {
+	clock.Clock // nil: RequestCache only calls Now and After
+	now         time.Time
+}
+
+func (c *rcClock) Now() time.Time                         { return c.now }
+func (c *rcClock) After(d time.Duration) <-chan time.Time { return make(chan time.Time) }
+
+var r1cfg = dedup.RequestCacheConfig{NotFoundTTL: 20 * time.Second, ErrorTTL: 10 * time.Second, CleanupInterval: 5 * time.Second, NumWorkers: 64, BusyTimeout: 5 * time.Second}
+
+const r1Adv = 11 * time.Second // past ErrorTTL and CleanupInterval, not past NotFoundTTL; two of them pass NotFoundTTL
+
+type r1scen struct {
+	name     string
+	clients  [][]startOp
+	advances []time.Duration
+	quickB   int // preemption bound in the quick tier (0: not explored in that tier)
+	thorB    int // preemption bound in the thorough tier
+}
+
+func r1name(clients [][]startOp, adv int) string {
+	var cs []string
+	for _, cl := range clients {
+		var o []string
+		for _, op := range cl {
+			o = append(o, op.key+"."+op.outcome)
+		}
+		cs = append(cs, strings.Join(o, ","))
+	}
+	return fmt.Sprintf("%s/clk%d", strings.Join(cs, "+"), adv)
+}
+
+// r1Scenarios enumerates the client programs: every unordered pair of programs
+// of 1-2 Starts of key a with scripted outcome ok / err / not-found (12
+// programs, 78 pairs), each without a clock thread and with a clock thread
+// whose single step passes ErrorTTL and CleanupInterval; plus three-client,
+// two-key and two-step-clock (past NotFoundTTL) systems. The preemption bound
+// shrinks with the size of the system (thread ends and blocked threads switch
+// for free, so even bound 1 places one preemption anywhere in every order of
+// thread completions).
+func r1Scenarios() []r1scen {
+	alpha := []string{"a/ok", "a/err", "a/nf"}
+	var progs [][]startOp
+	for _, x := range alpha {
+		progs = append(progs, ops(x))
+	}
+	for _, x := range alpha {
+		for _, y := range alpha {
+			progs = append(progs, ops(x+" "+y))
+		}
+	}
+	advs := func(n int) []time.Duration {
+		var a []time.Duration
+		for k := 0; k < n; k++ {
+			a = append(a, r1Adv)
+		}
+		return a
+	}
+	var out []r1scen
+	for i := 0; i < len(progs); i++ {
+		for j := i; j < len(progs); j++ {
+			cl := [][]startOp{progs[i], progs[j]}
+			n := len(progs[i]) + len(progs[j]) // 2..4 Starts
+			out = append(out, r1scen{name: r1name(cl, 0), clients: cl, quickB: []int{2, 2, 1}[n-2], thorB: []int{3, 2, 2}[n-2]})
+			out = append(out, r1scen{name: r1name(cl, 1), clients: cl, advances: advs(1), quickB: []int{1, 0, 0}[n-2], thorB: []int{2, 1, 1}[n-2]})
+		}
+	}
+	extra := func(quickB, thorB, adv int, cl ...string) {
+		var cs [][]startOp
+		for _, c := range cl {
+			cs = append(cs, ops(c))
+		}
+		out = append(out, r1scen{name: r1name(cs, adv), clients: cs, advances: advs(adv), quickB: quickB, thorB: thorB})
+	}
+	extra(1, 2, 0, "a/err", "a/ok", "a/ok")
+	extra(1, 2, 0, "a/err b/ok", "b/nf a/ok")
+	extra(0, 1, 1, "a/nf", "a/err", "a/ok")
+	extra(0, 1, 2, "a/nf a/ok", "a/ok")
+	extra(0, 1, 2, "a/err a/nf", "a/ok a/ok")
+	return out
+}
+
+type r1call struct {
+	label    string
+	key      string
+	outcome  string
+	invokeEv int
+	returned bool
+	ret      error
+	retEv    int
+	entered  int
+	enterEv  int
+	exited   bool
+	exitEv   int
+	exitNow  time.Time
+}
+
+// r1mon records what the harness can see of the cache: Start invocations and
+// returns, request executions. Only one vrt thread runs at a time: no locks.
+type r1mon struct {
+	clk      *rcClock
+	rc       *dedup.RequestCache
+	ev       int
+	calls    []*r1call
+	inflight map[string]int
+	vio      []string
+}
+
+func r1ttl(outcome string) time.Duration {
+	if outcome == "nf" {
+		return r1cfg.NotFoundTTL
+	}
+	return r1cfg.ErrorTTL
+}
+
+func (m *r1mon) fail(f string, a ...interface{}) { m.vio = append(m.vio, fmt.Sprintf(f, a...)) }
+
+func (m *r1mon) request(c *r1call) error {
+	m.ev++
+	c.entered++
+	c.enterEv = m.ev
+	if c.entered > 1 {
+		m.fail("RequestCache: one Start executed its request twice :: %s", c.label)
+	}
+	if m.inflight[c.key] > 0 {
+		m.fail("RequestCache: two executions of one key in flight (Starts racing between critical sections) :: key %s, second is %s", c.key, c.label)
+	}
+	// the statement: from the moment a request is admitted until its cached error
+	// expires, no other request of the key runs. An earlier execution of the key
+	// that returned an error at clock t has its error cached until at least
+	// t+TTL (the cache stamps it at or after t), and the key stays pending until
+	// the error is stored.
+	for _, e := range m.calls {
+		if e != c && e.key == c.key && e.exited && outcomeErr(e.outcome) != nil && !m.clk.now.After(e.exitNow.Add(r1ttl(e.outcome))) {
+			m.fail("RequestCache: request ran again although an earlier request of the key failed and its error cannot have expired :: %s ran at +%v; %s returned %s at +%v (TTL %v)",
+				c.label, m.clk.now.Sub(t0), e.label, e.outcome, e.exitNow.Sub(t0), r1ttl(e.outcome))
+			break
+		}
+	}
+	m.inflight[c.key]++
+	vrt.Point("request " + c.key)
+	m.ev++
+	m.inflight[c.key]--
+	c.exited = true
+	c.exitEv = m.ev
+	c.exitNow = m.clk.now
+	return outcomeErr(c.outcome)
+}
+
+func (m *r1mon) start(c *r1call) {
+	m.ev++
+	c.invokeEv = m.ev
+	m.calls = append(m.calls, c)
+	err := m.rc.Start(c.key, func() error { return m.request(c) })
+	m.ev++
+	c.returned = true
+	c.ret = err
+	c.retEv = m.ev
+}
+
+func r1result(c *r1call) string {
+	switch {
+	case !c.returned:
+		return "unreturned"
+	case c.ret == nil:
+		return "ran:" + c.outcome
+	}
+	return errName(c.ret)
+}
+
+// check is evaluated after every thread (clients, request goroutines) ended.
+func (m *r1mon) check() {
+	for _, c := range m.calls {
+		switch {
+		case !c.returned:
+			m.fail("RequestCache: a Start never returned :: %s", c.label)
+		case c.ret == nil:
+			if c.entered != 1 || !c.exited {
+				m.fail("RequestCache: Start returned nil but its request did not run exactly once :: %s ran %d times", c.label, c.entered)
+			}
+		default:
+			if c.entered > 0 {
+				m.fail("RequestCache: request executed although its Start reported %s :: %s", errName(c.ret), c.label)
+			}
+			switch c.ret {
+			case dedup.ErrRequestPending:
+				ok := false
+				for _, o := range m.calls {
+					if o != c && o.key == c.key && o.invokeEv < c.retEv && o.returned && o.ret == nil {
+						ok = true
+					}
+				}
+				if !ok {
+					m.fail("RequestCache: Start reported ErrRequestPending although no other Start of the key was ever admitted before it returned :: %s", c.label)
+				}
+			case errBoom, errNF:
+				ok := false
+				for _, o := range m.calls {
+					if o != c && o.key == c.key && o.exited && o.exitEv < c.retEv && outcomeErr(o.outcome) == c.ret {
+						ok = true
+					}
+				}
+				if !ok {
+					m.fail("RequestCache: Start reported a cached error that no finished request of the key returned :: %s: %s", c.label, errName(c.ret))
+				}
+			default:
+				m.fail("RequestCache: Start with free workers neither ran its request nor reported a pending request or a cached error :: %s: %s", c.label, errName(c.ret))
+			}
+		}
+	}
+}
+
+// probe: with nothing in flight any more, one more Start per key must see the
+// state the history left: the last execution's error while it cannot have
+// expired, otherwise it runs (nothing may still be pending).
+func (m *r1mon) probe(key string) string {
+	var last *r1call
+	for _, c := range m.calls {
+		if c.key == key && c.entered > 0 && (last == nil || c.enterEv > last.enterEv) {
+			last = c
+		}
+	}
+	nvio := len(m.vio)
+	p := &r1call{label: "probe:" + key, key: key, outcome: "ok"}
+	m.start(p)
+	vrt.Join()
+	if len(m.vio) > nvio {
+		return "probe " + key + "=" + r1result(p) // the execution monitor already objected to the probe's run
+	}
+	switch {
+	case p.ret == dedup.ErrRequestPending:
+		m.fail("RequestCache: key still pending after every request of it finished :: probe Start(%s) reported ErrRequestPending", key)
+	case last != nil && outcomeErr(last.outcome) != nil && !m.clk.now.After(last.exitNow.Add(r1ttl(last.outcome))):
+		if p.ret != outcomeErr(last.outcome) {
+			m.fail("RequestCache: error of the last failed request of the key is not reported while it cannot have expired :: probe Start(%s): %s, want %s from %s", key, r1result(p), errName(outcomeErr(last.outcome)), last.label)
+		}
+	case last != nil && outcomeErr(last.outcome) != nil:
+		// the error may or may not have expired (it was stamped between the
+		// request's return and the clock's last step): both answers are allowed
+		if p.ret != nil && p.ret != outcomeErr(last.outcome) {
+			m.fail("RequestCache: Start with nothing pending reported neither the last error of the key nor ran :: probe Start(%s): %s", key, r1result(p))
+		}
+	default:
+		if p.ret != nil {
+			m.fail("RequestCache: Start with nothing pending and no cached error did not run :: probe Start(%s): %s", key, r1result(p))
+		}
+	}
+	return "probe " + key + "=" + r1result(p)
+}
+
+func r1Harness(sc r1scen) *vrt.Harness {
+	return &vrt.Harness{Name: "reqcache-locks/" + sc.name, Horizon: 20000, Body: func() (string, string) {
+		clk := &rcClock{now: t0}
+		m := &r1mon{clk: clk, inflight: map[string]int{}}
+		m.rc = dedup.NewRequestCache(r1cfg, clk, tally.NoopScope)
+		// user code called by the cache: a scheduling point of its own
+		m.rc.SetNotFound(func(err error) bool { vrt.Point("matcher"); return err == errNF })
+		perClient := make([][]*r1call, len(sc.clients))
+		keys := map[string]bool{}
+		for ci, prog := range sc.clients {
+			ci, prog := ci, prog
+			for _, op := range prog {
+				keys[op.key] = true
+			}
+			vrt.GoNamed(fmt.Sprintf("c%d", ci), func() {
+				for i, op := range prog {
+					c := &r1call{label: fmt.Sprintf("c%d#%d:%s/%s", ci, i, op.key, op.outcome), key: op.key, outcome: op.outcome}
+					perClient[ci] = append(perClient[ci], c)
+					m.start(c)
+				}
+			})
+		}
+		if len(sc.advances) > 0 {
+			vrt.GoNamed("clk", func() {
+				for _, d := range sc.advances {
+					vrt.Point("advance")
+					clk.now = clk.now.Add(d)
+				}
+			})
+		}
+		vrt.Join()
+		m.check()
+		var parts []string
+		for ci, cs := range perClient {
+			var r []string
+			for _, c := range cs {
+				r = append(r, r1result(c))
+			}
+			parts = append(parts, fmt.Sprintf("c%d%v", ci, r))
+		}
+		var ks []string
+		for k := range keys {
+			ks = append(ks, k)
+		}
+		sort.Strings(ks)
+		if len(m.vio) == 0 {
+			for _, k := range ks {
+				parts = append(parts, m.probe(k))
+			}
+		}
+		obs := strings.Join(parts, " ")
+		if len(m.vio) > 0 {
+			return obs, m.vio[0]
+		}
+		return obs, ""
+	}}
+}
+
+// ---- scenario pool: the lock-granularity scenarios are many and small, so each
+// is explored in-process by one worker process (vrt's own sharding starts a set
+// of processes per harness); the engine's reporting (rep.VRT) is repeated here
+// for a result that was computed elsewhere.
+
+type r1job struct {
+	Name   string
+	Bound  int
+	MaxSec int
+	weight int
+}
+
+type r1jobResult struct {
+	Name      string
+	Bound     int
+	Res       *vrt.Result
+	SelfTests int
+	Seconds   float64
+}
+
+func execSig(x *vrt.Exec, obs string) string {
+	var b strings.Builder
+	for _, p := range x.Points {
+		fmt.Fprintf(&b, "%s/%d;", p.Label, p.NEnabled)
+	}
+	return b.String() + " => " + obs
+}
+
+// r1SelfTest: the default schedule and every schedule deviating from it at one
+// point (capped at 40) are executed twice and must agree point by point.
+func r1SelfTest(h *vrt.Harness) (n int, err string) {
+	twice := func(sched []int) *vrt.Exec {
+		x1, o1, _ := vrt.Replay(h, sched)
+		x2, o2, _ := vrt.Replay(h, sched)
+		n++
+		if s1, s2 := execSig(x1, o1), execSig(x2, o2); s1 != s2 && err == "" {
+			err = fmt.Sprintf("non-deterministic replay in %s schedule %v:\n%s\nvs\n%s", h.Name, sched, s1, s2)
+		}
+		return x1
+	}
+	x := twice(nil)
+	k := 0
+	for i, p := range x.Points {
+		for alt := 1; alt < p.NEnabled && k < 40; alt++ {
+			twice(append(append([]int{}, x.Choices()[:i]...), alt))
+			k++
+		}
+	}
+	return n, err
+}
+
+// r1WorkerMain turns the process into a scenario worker when C29_R1_WORKER is set.
+func r1WorkerMain() {
+	if os.Getenv("C29_R1_WORKER") == "" {
+		return
+	}
+	hs := map[string]*vrt.Harness{}
+	for _, sc := range r1Scenarios() {
+		h := r1Harness(sc)
+		hs[h.Name] = h
+	}
+	fd, err := syscall.Dup(1)
+	if err != nil {
+		os.Exit(2)
+	}
+	enc := json.NewEncoder(os.NewFile(uintptr(fd), "results"))
+	os.Stdout = os.Stderr
+	dec := json.NewDecoder(os.Stdin)
+	for {
+		var j r1job
+		if err := dec.Decode(&j); err != nil {
+			os.Exit(0)
+		}
+		h := hs[j.Name]
+		if h == nil {
+			fmt.Fprintf(os.Stderr, "c29 scenario worker: unknown harness %q\n", j.Name)
+			os.Exit(2)
+		}
+		st := time.Now()
+		out := r1jobResult{Name: j.Name, Bound: j.Bound}
+		var serr string
+		out.SelfTests, serr = r1SelfTest(h)
+		if serr != "" {
+			out.Res = &vrt.Result{Err: serr}
+		} else {
+			out.Res = vrt.Explore(h, j.Bound, time.Duration(j.MaxSec)*time.Second)
+		}
+		out.Seconds = time.Since(st).Seconds()
+		enc.Encode(out)
+	}
+}
+
+// r1Pool runs the jobs on `workers` processes (largest weight first) and returns
+// the results in the order of jobs; a job not started within cap has Res == nil.
+func r1Pool(run *evid.Run, jobs []r1job, workers int, cap time.Duration) []r1jobResult {
+	deadline := time.Now().Add(cap)
+	order := make([]int, len(jobs))
+	for i := range order {
+		order[i] = i
+	}
+	sort.SliceStable(order, func(a, b int) bool { return jobs[order[a]].weight > jobs[order[b]].weight })
+	results := make([]r1jobResult, len(jobs))
+	if workers > len(jobs) {
+		workers = len(jobs)
+	}
+	if workers == 0 {
+		return results
+	}
+	jobc := make(chan int, len(jobs))
+	for _, i := range order {
+		jobc <- i
+	}
+	close(jobc)
+	exe, _ := os.Executable()
+	var mu sync.Mutex
+	var wg sync.WaitGroup
+	var firstErr error
+	for w := 0; w < workers; w++ {
+		wg.Add(1)
+		go func() {
+			defer wg.Done()
+			fail := func(err error) {
+				mu.Lock()
+				if firstErr == nil {
+					firstErr = err
+				}
+				mu.Unlock()
+			}
+			cmd := exec.Command(exe)
+			cmd.Env = append(os.Environ(), "C29_R1_WORKER=1", "GOMAXPROCS=1")
+			cmd.Stderr = os.Stderr
+			in, _ := cmd.StdinPipe()
+			out, _ := cmd.StdoutPipe()
+			if err := cmd.Start(); err != nil {
+				fail(fmt.Errorf("scenario worker start: %v", err))
+				return
+			}
+			enc, dec := json.NewEncoder(in), json.NewDecoder(out)
+			for i := range jobc {
+				if time.Now().After(deadline) {
+					continue // reported as not exhaustive by the caller
+				}
+				if err := enc.Encode(jobs[i]); err != nil {
+					fail(fmt.Errorf("scenario worker write: %v", err))
+					break
+				}
+				var r r1jobResult
+				if err := dec.Decode(&r); err != nil {
+					fail(fmt.Errorf("scenario worker died on %s: %v", jobs[i].Name, err))
+					break
+				}
+				mu.Lock()
+				results[i] = r
+				mu.Unlock()
+			}
+			in.Close()
+			cmd.Wait()
+		}()
+	}
+	wg.Wait()
+	if firstErr != nil {
+		run.Fatal(firstErr)
+	}
+	return results
+}
+
+// r1Report is rep.VRT's reporting for a result explored by a scenario worker.
+func r1Report(run *evid.Run, h *vrt.Harness, bound int, res *vrt.Result) {
+	if res.Err != "" {
+		run.Fatal(fmt.Errorf("%s: %s", h.Name, res.Err))
+	}
+	run.Eval(res.Executions)
+	for k := range res.Outcomes {
+		run.Distinct(h.Name + "|" + k)
+	}
+	if !res.Completed {
+		run.NotExhaustive(fmt.Sprintf("%s: time cap hit (bound %d)", h.Name, bound))
+	}
+	if res.Capped > 0 {
+		run.NotExhaustive(fmt.Sprintf("%s: %d executions hit the step horizon", h.Name, res.Capped))
+	}
+	for _, sm := range res.Samples {
+		run.Sample(map[string]interface{}{"harness": h.Name, "schedule": sm})
+	}
+	for _, v := range res.Violations {
+		run.Violation(class(v.Msg), v)
+	}
+	run.Set("harness:"+h.Name, map[string]interface{}{"executions": res.Executions, "preemption_bound": bound, "completed": res.Completed, "outcomes": len(res.Outcomes), "deadlocks": res.Deadlocks, "max_points": res.MaxPoints, "with_deviation": res.Preempted})
+}
+
 // ============================================================== main
 
 func allHarnesses() []*vrt.Harness {
@@ -806,6 +1328,9 @@ func allHarnesses() []*vrt.Harness {
 	}
 	for _, sc := range rcScenarios() {
 		hs = append(hs, rcHarness(sc))
+	}
+	for _, sc := range r1Scenarios() {
+		hs = append(hs, r1Harness(sc))
 	}
 	return hs
 }
@@ -853,15 +1378,17 @@ func replay(run *evid.Run, path string) {
 
 func main() {
 	e1q.Main(func(t *testing.T) {
+		r1WorkerMain()
 		vrt.WorkerMain(allHarnesses())
 
 		run := evid.New("C29", "exploration")
 		if p := run.ReplayPath(); p != "" {
 			replay(run, p)
 		}
-		run.Rule = "E1: every interleaving at the sync operations of utils/dedup (preemption-bounded DFS) of 2-3 threads calling the real Limiter.Run / IntervalTrap.Trap plus a thread moving an explicit clock past the task TTL or the GC interval; E1q: every order (deviation-bounded DFS over the enabled set found by synctest quiescence) of {client issues its next Start, a parked request completes, clock advance} on the real RequestCache (directly and behind blobrefresh.Refresher) compared at every quiescent point with a pending/cached-error model. distinct = distinct outcome classes (per-call results + situations met) per scenario."
+		run.Rule = "E1: every interleaving at the sync operations of utils/dedup (preemption-bounded DFS) of 2-3 threads calling the real Limiter.Run / IntervalTrap.Trap plus a thread moving an explicit clock past the task TTL or the GC interval; E1q: every order (deviation-bounded DFS over the enabled set found by synctest quiescence) of {client issues its next Start, a parked request completes, clock advance} on the real RequestCache (directly and behind blobrefresh.Refresher) compared at every quiescent point with a pending/cached-error model; E1 on the RequestCache at lock granularity: for every unordered pair of client programs of 1-2 Starts of one key with scripted outcome ok/err/not-found (78 pairs; plus 3-client and 2-key systems), without and with a clock thread stepping past ErrorTTL, every interleaving (preemption-bounded DFS; thread ends and blocked threads switch for free) of the clients, the cache's own request goroutines (vrt threads through the overlay) and the clock at every Lock, after every Unlock, inside the user ErrorMatcher and inside the request, checked against the statement: never two requests of a key in flight, no request of a key runs from the admission of an earlier one until that one's error (if it failed) can have expired, a Start runs its request exactly once iff it returned nil, reported states have a witness, and a final probe Start per key sees the last error / nothing pending. distinct = distinct outcome classes (per-call results + situations met) per scenario."
 		run.Assume("code between two sync operations of utils/dedup is data-race free; the Limiter/IntervalTrap clock moves only at scheduling points (E1)")
-		run.Assume("RequestCache critical sections (one mutex) are atomic steps: orders are explored at the granularity of request start/completion, Start blocking on the worker semaphore, and timer expiry (E1q)")
+		run.Assume("E1q part: RequestCache critical sections (one mutex) are atomic steps: orders are explored at the granularity of request start/completion, Start blocking on the worker semaphore, and timer expiry")
+		run.Assume("lock-granularity RequestCache part: more workers than Starts (the semaphore never blocks; the busy path is the E1q part's), clock steps of 11s (past ErrorTTL 10s and CleanupInterval 5s, two steps past NotFoundTTL 20s), preemption bound 1-3 shrinking with the size of the system")
 		run.Assume("small-scope: 1-3 keys, 2-3 callers, 1-2 workers, clock advances of 6s/13s (TTL boundaries themselves are not in the alphabet)")
 
 		fpE1 := func(cls string) func(v vrt.Violation) string {
@@ -977,6 +1504,66 @@ func main() {
 				}
 			}
 		}
+		// RequestCache at lock granularity (E1): one in-process exploration per
+		// scenario, the scenarios spread over worker processes
+		r1Outcomes := map[string]int{}
+		r1Exec, r1N := 0, 0
+		r1Bounds := map[string]int{}
+		st := time.Now()
+		var jobs []r1job
+		byName := map[string]*vrt.Harness{}
+		for _, sc := range r1Scenarios() {
+			b := sc.quickB
+			if run.Thorough() {
+				b = sc.thorB
+			}
+			if b == 0 {
+				continue
+			}
+			h := r1Harness(sc)
+			byName[h.Name] = h
+			// order: the clock-less two-client systems first, then the rest; larger first within each
+			nOps := 0
+			for _, cl := range sc.clients {
+				nOps += len(cl)
+			}
+			w := nOps*100 + b*10 + len(sc.clients)
+			if len(sc.advances) == 0 && len(sc.clients) == 2 {
+				w += 1000000
+			} else {
+				w += len(sc.advances) * 1000
+			}
+			jobs = append(jobs, r1job{Name: h.Name, Bound: b, MaxSec: maxDur, weight: w})
+		}
+		poolCap := 90 * time.Second
+		if run.Thorough() {
+			poolCap = 600 * time.Second
+		}
+		for i, jr := range r1Pool(run, jobs, evid.Workers(), poolCap) {
+			if jr.Res == nil {
+				run.NotExhaustive(fmt.Sprintf("%s: not started before the %v cap of the lock-granularity part", jobs[i].Name, poolCap))
+				continue
+			}
+			h := byName[jr.Name]
+			res := jr.Res
+			nSelf += jr.SelfTests
+			r1Report(run, h, jr.Bound, res)
+			samples(h, res)
+			r1N++
+			r1Exec += res.Executions
+			r1Bounds[fmt.Sprintf("bound %d", jr.Bound)]++
+			for o, n := range res.Outcomes {
+				for _, f := range strings.Fields(o) {
+					for _, kind := range []string{"ErrRequestPending", "cached(boom)", "cached(not-found)", "ran:err", "ran:nf", "ran:ok"} {
+						if strings.Contains(f, kind) {
+							r1Outcomes[kind] += n
+						}
+					}
+				}
+			}
+		}
+		times["reqcache-locks/*"] = float64(time.Since(st).Milliseconds()) / 1000
+		run.Set("reqcache_locks", map[string]interface{}{"scenarios": r1N, "scenarios_per_preemption_bound": r1Bounds, "executions": r1Exec, "executions_whose_outcome_contains": r1Outcomes})
 		run.Set("executions_containing", tagCount)
 		run.Set("seconds_per_harness", times)
 		run.Set("schedules_replayed_twice_identically", nSelf)
